@@ -63,6 +63,13 @@ func (e *nilEngine) nonNil(v ssa.Value, at ssa.Instruction, depth int) (bool, st
 	case *ssa.Alloc, *ssa.MakeClosure, *ssa.MakeMap, *ssa.MakeSlice, *ssa.MakeChan, *ssa.Function:
 		return true, "freshly constructed"
 	case *ssa.MakeInterface:
+		// an interface holding a nil pointer is not nil itself, but calling a
+		// method through it dereferences the pointer all the same
+		if _, isPtr := x.X.Type().Underlying().(*types.Pointer); isPtr {
+			if ok, why := e.nonNil(x.X, at, depth+1); !ok {
+				return false, "interface wrapped around a pointer that may be nil (the interface itself compares non-nil): " + why
+			}
+		}
 		return true, "interface holding a concrete value"
 	case *ssa.Slice:
 		return e.nonNil(x.X, at, depth+1)
